@@ -181,4 +181,7 @@ Proof. apply tie_stokes_accessors. Qed.
 Theorem C02_coherency_vector c0 c1 c2 c3 :
   firstn 8 (coherency_vector_convert (OO:=ROps) c0 c1 c2 c3) = [c0; 0; c2; - c3; c2; c3; c1; 0]%R.
 Proof. apply tie_coherency_vector_convert. Qed.
+Theorem C02_spinor_linear_operations xr xi yr yi ur ui vr vi a : (a <> 0)%R ->
+  Tie_C02_xform.halves_eq 16 (spinor_linear_ops (OO:=ROps) xr xi yr yi ur ui vr vi a).
+Proof. apply law_spinor_linear_ops. Qed.
 Print Assumptions C02_stokes_accessors.
